@@ -380,6 +380,10 @@ def main():
     sys.path.insert(0, os.path.dirname(os.path.abspath(__file__)))
     import extract_ssh
     extract_ssh.main()
+    # the header/record component tables (tools/extract_fields.py)
+    import extract_fields
+    if write_if_changed(os.path.join(GEN, 'Fields.lean'), extract_fields.render()):
+        print('extract_fields: Gen/Fields.lean rewritten')
 
 
 if __name__ == '__main__':
